@@ -13,6 +13,45 @@ def short(n):
     return n.replace(PFX, '')
 
 
+_UF_MEMO = {}
+
+
+def has_uf(t):
+    """does the term mention an uninterpreted hash/crypto function (names starting with UF_)?"""
+    tid = t.get_id()
+    r = _UF_MEMO.get(tid)
+    if r is not None:
+        return r[0] if isinstance(r, tuple) else r
+    stack = [t]
+    seen = set()
+    found = False
+    while stack:
+        x = stack.pop()
+        xid = x.get_id()
+        if xid in seen:
+            continue
+        seen.add(xid)
+        m = _UF_MEMO.get(xid)
+        if isinstance(m, tuple):
+            m = m[0]
+        if m is True:
+            found = True
+            break
+        if m is False:
+            continue
+        if z3.is_app(x):
+            d = x.decl()
+            if d.kind() == z3.Z3_OP_UNINTERPRETED and d.name().startswith('UF_'):
+                found = True
+                break
+            stack.extend(x.children())
+    if not found:
+        for xid in seen:
+            _UF_MEMO[xid] = False
+    _UF_MEMO[tid] = (found, t)   # keep the term alive: z3 reuses ast ids of freed terms
+    return found
+
+
 class ForkRequest(Exception):
     """the current instruction needs `term` concrete: fork one state per feasible value (DESIGN 3.5)"""
 
@@ -72,6 +111,7 @@ class Ctx:
         s.allow_go = o.get("allow_go", False)
         s.progress_every = int(os.environ.get("PROGRESS", "20000"))
         s.fresh_feas = o.get('fresh_feas', True)
+        s.axioms = []
         s.heap_strict = o.get('heap_strict', True)
         s.last_feas_solver = None
         s.instrs = 0
@@ -122,6 +162,9 @@ class Interp:
             fs.set('timeout', c.feas_timeout)
             fs.add(*a)
             r = fs.check()
+            if r == z3.sat and c.axioms and any(has_uf(x) for x in a):
+                fs.add(*c.axioms)
+                r = fs.check()
             c.last_feas_solver = fs
         else:
             r = c.solver.check(*a)
@@ -148,6 +191,9 @@ class Interp:
         c.solver_calls += 1
         t = time.time()
         r = fs.check()
+        if r == z3.sat and c.axioms and (any(has_uf(x) for x in st.pc) or (extra is not None and has_uf(extra))):
+            fs.add(*c.axioms)
+            r = fs.check()
         c.solver_time += time.time() - t
         if r == z3.sat:
             return s.extract(st, fs.model())
@@ -163,6 +209,7 @@ class Interp:
             sv = z3.Solver()
             sv.set('timeout', 3000)
             sv.add(*st.pc)
+            sv.add(*s.ctx.axioms)
             if sv.check() != z3.sat:
                 break
             order = names[:]
@@ -251,6 +298,9 @@ class Interp:
         fs.add(z3.Not(cond))
         c.solver_calls += 1
         r = fs.check()
+        if r == z3.sat and c.axioms and (has_uf(cond) or any(has_uf(x) for x in st.pc)):
+            fs.add(*c.axioms)
+            r = fs.check()
         dt = time.time() - t_
         c.solver_time += dt
         ms = int(dt * 1000)
@@ -326,6 +376,7 @@ class Interp:
         sv = z3.Solver()
         sv.set('timeout', c.vc_timeout)
         sv.add(*st.pc)
+        sv.add(*c.axioms)
         vals = []
         while True:
             c.solver_calls += 1
@@ -1588,7 +1639,7 @@ class Interp:
             return dst
         n = simp_i(src.len)
         if is_sym(n):
-            raise Unsupported('append of symbolic count')
+            n = s.concrete_int(st, n, 'append count')
         if n == 0:
             return dst
         svals = [s.slice_get(st, src, j) for j in range(n)]
